@@ -65,7 +65,7 @@ def shards(tier):
     if tier == "thorough":
         out += [("core", s) for s in seq_shards(SIGMA_CORE, 7, min_len=7)]
     out += [("lists", i) for i in range(len(CATALOGUE))]
-    out += [("mw", 0)]
+    out += [("mw", 0), ("depth", 0)]
     out += spaces.ball_shards(1, 3 if tier == "thorough" else 2)
     out += [("ball", b, 2, st, n) for (_, b, _, st, n) in spaces.ball_shards(len(BASES), 2) if b > 0]
     return out
@@ -182,6 +182,20 @@ def run_shard(shard, tier, acc):
                     s = sep.join(names)
                     acc.count("catalogue_lists")
                     check_string(s, acc)
+    elif kind == "depth":
+        # nesting depth / long lists: a group nested d deep at every position of a list of n names
+        for d in range(0, 8):
+            grp = "{" * d + "a and b" + "}" * d
+            for n in (1, 2, 3, 5, 9):
+                for pos in range(n):
+                    for sep in SEPS[:3]:
+                        names = ["N%d, M." % i for i in range(n)]
+                        names[pos] = grp + (" C" if d else "")
+                        acc.count("depth_strings")
+                        check_string(sep.join(names), acc)
+        for n in (10, 100, 1000):
+            check_string(" and ".join("Last%d, First%d" % (i, i) for i in range(n)), acc)
+            check_string(" and ".join("{Inst %d and Co}" % i for i in range(n)), acc)
     elif kind == "mw":
         check_middleware(acc)
     elif kind == "ball":
